@@ -62,8 +62,13 @@ NAME_POOL = ['exp_bias_0.5', 'exp_bias_0.25', 'exp_bias_10', 'exp_bias_inf', 'ex
              'exp', 'toric.v2', 'run 1', 'input_00', 'a.b.c', 'exp_bias_100.0', 'Z_bias-3']
 
 
-def _data_dir(n_inputs, names=None):
-    key = (os.getpid(), n_inputs, tuple(names or ()))
+# other things found in an inputs folder; only *.json files are inputs
+EXTRA_POOL = ['README.txt', '.DS_Store', 'notes.md', '.ipynb_checkpoints/', 'exp.json.gz',
+              'old.json.bak', '.gitkeep', 'plots/']
+
+
+def _data_dir(n_inputs, names=None, extras=None):
+    key = (os.getpid(), n_inputs, tuple(names or ()), tuple(extras or ()))
     if key not in _DIRS:
         d = os.path.join(runner.scratch_dir('c14'), f'p{os.getpid()}_i{n_inputs}_{len(_DIRS)}')
         shutil.rmtree(d, ignore_errors=True)
@@ -73,6 +78,12 @@ def _data_dir(n_inputs, names=None):
         for stem in stems:
             with open(os.path.join(d, 'inputs', stem + '.json'), 'w') as f:
                 f.write('{}')
+        for extra in extras or ():
+            if extra.endswith('/'):
+                os.makedirs(os.path.join(d, 'inputs', extra))
+            else:
+                with open(os.path.join(d, 'inputs', extra), 'w') as f:
+                    f.write('x')
         _DIRS[key] = d
     return _DIRS[key]
 
@@ -92,7 +103,7 @@ def eval_case(case):
     n_inputs, N, C, trials = (case['n_inputs'], case['n_nodes'],
                               case['n_cores'], case['trials'])
     assert in_domain(n_inputs, N, C, trials), 'case outside domain'
-    d = _data_dir(n_inputs, case.get('names'))
+    d = _data_dir(n_inputs, case.get('names'), case.get('extras'))
     tasks = []
 
     # 'files' cases: the stand-in for the child process really writes its
@@ -162,7 +173,8 @@ def eval_case(case):
             fails.append({'relation': 'task_without_trials',
                           'detail': f'task got n_runs={n_runs}'})
     expected_inputs = sorted(
-        os.path.join(d, 'inputs', f) for f in os.listdir(os.path.join(d, 'inputs')))
+        os.path.join(d, 'inputs', f) for f in os.listdir(os.path.join(d, 'inputs'))
+        if f.endswith('.json') and os.path.isfile(os.path.join(d, 'inputs', f)))
     for inp in expected_inputs:
         runs = per_input.get(os.path.abspath(inp))
         if not runs:
@@ -211,6 +223,8 @@ def eval_case(case):
                   else 'even_trials')
     if trials % last >= max(1, trials // last):
         labels.append('remainder>=quotient')
+    if case.get('extras'):
+        labels.append('other-entries-in-inputs-folder')
     if case.get('names'):
         labels.append('dotted-input-names' if any('.' in x for x in case['names'])
                       else 'plain-input-names')
@@ -251,6 +265,9 @@ def large_cases(draw):
     if draw(st.booleans()):
         case['names'] = draw(st.lists(st.sampled_from(NAME_POOL), min_size=n_inputs,
                                       max_size=n_inputs, unique=True))
+    if draw(st.integers(0, 2)) == 0:
+        case['extras'] = draw(st.lists(st.sampled_from(EXTRA_POOL), min_size=1, max_size=3,
+                                       unique=True))
     return case
 
 
@@ -274,6 +291,9 @@ def file_cases(draw):
     if draw(st.booleans()):
         case['names'] = draw(st.lists(st.sampled_from(NAME_POOL), min_size=n_inputs,
                                       max_size=n_inputs, unique=True))
+    if draw(st.integers(0, 2)) == 0:
+        case['extras'] = draw(st.lists(st.sampled_from(EXTRA_POOL), min_size=1, max_size=3,
+                                       unique=True))
     return case
 
 
